@@ -135,9 +135,85 @@ def _pool_loops(fn: FuncInfo, pool: str):
     return out
 
 
+def _scatter_alternatives(fn, e, assigns):
+    """Two more ways to put the per-tomogram tasks back into molecule order (same obligations on indices and tasks as the indexed assignment):
+    (b) a dictionary row -> task filled per loader (`d.update(zip(indices, tasks))` / `d[i] = t`) and read as `[d.get(i) for i in range(count)]`;
+    (c) rows and tasks collected side by side (`rows.extend(indices); ts.extend(tasks)`) and gathered by the inverse permutation
+        `[ts[j] for j in np.argsort(rows, kind="stable")]`."""
+    if not (isinstance(e, (ast.ListComp, ast.GeneratorExp)) and len(e.generators) == 1 and not e.generators[0].ifs and isinstance(e.generators[0].target, ast.Name)):
+        return None
+    g = e.generators[0]
+    v = g.target.id
+    outer = [lp for lp in walk_no_nested(fn.node) if isinstance(lp, ast.For) and mol_order_source(lp.iter, assigns) == "Grouped"]
+    if len(outer) != 1:
+        return None
+    lp = outer[0]
+    ldr = lp.target.id if isinstance(lp.target, ast.Name) else None
+
+    def single(name):
+        vals = assigns.get(name, [])
+        return vals[0] if len(vals) == 1 else None
+
+    elt = e.elt
+    # (b) dictionary
+    d = None
+    if isinstance(elt, ast.Call) and isinstance(elt.func, ast.Attribute) and elt.func.attr == "get" and isinstance(elt.func.value, ast.Name) and len(elt.args) == 1 and \
+            isinstance(elt.args[0], ast.Name) and elt.args[0].id == v:
+        d = elt.func.value.id
+    elif isinstance(elt, ast.Subscript) and isinstance(elt.value, ast.Name) and isinstance(elt.slice, ast.Name) and elt.slice.id == v:
+        d = elt.value.id
+    it = g.iter
+    if isinstance(it, ast.Name) and single(it.id) is not None:
+        it_x = single(it.id)
+    else:
+        it_x = it
+    if d is not None and isinstance(it_x, ast.Call) and dotted(it_x.func) == "range" and len(it_x.args) == 1:
+        n_src = it_x.args[0]
+        n_txt = norm_src(single(n_src.id)) if isinstance(n_src, ast.Name) and single(n_src.id) is not None else norm_src(n_src)
+        if not ("molecules" in n_txt and ("count" in n_txt or "len(" in n_txt)):
+            return "?", f"`{norm_src(e)[:60]}` does not range over the molecule count"
+        dval = single(d)
+        if not (isinstance(dval, ast.Dict) and not dval.keys) and not (isinstance(dval, ast.Call) and dotted(dval.func) == "dict" and not dval.args):
+            return None
+        ups = [c for c in ast.walk(lp) if isinstance(c, ast.Call) and isinstance(c.func, ast.Attribute) and c.func.attr == "update" and isinstance(c.func.value, ast.Name)
+               and c.func.value.id == d]
+        other = [c for c in ast.walk(fn.node) if isinstance(c, ast.Call) and isinstance(c.func, ast.Attribute) and isinstance(c.func.value, ast.Name) and
+                 c.func.value.id == d and c.func.attr in ("update", "pop", "clear", "setdefault", "popitem") and c not in ups]
+        stores = [st for st in ast.walk(fn.node) if isinstance(st, ast.Assign) and any(isinstance(t, ast.Subscript) and isinstance(t.value, ast.Name) and t.value.id == d
+                                                                                       for t in st.targets)]
+        if len(ups) == 1 and not other and not stores and len(ups[0].args) == 1 and isinstance(ups[0].args[0], ast.Call) and dotted(ups[0].args[0].func) == "zip" and \
+                len(ups[0].args[0].args) == 2:
+            idx_src, task_src = ups[0].args[0].args
+            return _scatter_sources(fn, assigns, ldr, idx_src, task_src)
+        return "?", f"dictionary `{d}` is not filled by one `update(zip(indices, tasks))` per tomogram"
+    # (c) inverse permutation
+    if isinstance(elt, ast.Subscript) and isinstance(elt.value, ast.Name) and isinstance(elt.slice, ast.Name) and elt.slice.id == v and isinstance(it_x, ast.Call) and \
+            (dotted(it_x.func) or "").split(".")[-1] == "argsort" and it_x.args:
+        tlist = elt.value.id
+        rows = it_x.args[0]
+        while isinstance(rows, ast.Call) and (dotted(rows.func) or "").split(".")[-1] in ("asarray", "array") and rows.args:
+            rows = rows.args[0]
+        if not isinstance(rows, ast.Name):
+            return "?", "argsort of something that is not the collected row list"
+        ext = {}
+        for c in ast.walk(lp):
+            if isinstance(c, ast.Call) and isinstance(c.func, ast.Attribute) and c.func.attr == "extend" and isinstance(c.func.value, ast.Name) and len(c.args) == 1:
+                ext.setdefault(c.func.value.id, []).append(c.args[0])
+        mut_elsewhere = [c for c in ast.walk(fn.node) if isinstance(c, ast.Call) and isinstance(c.func, ast.Attribute) and isinstance(c.func.value, ast.Name) and
+                         c.func.value.id in (rows.id, tlist) and c.func.attr in ("append", "extend", "insert", "pop", "sort", "reverse", "remove", "clear") and
+                         not any(c is x for x in ast.walk(lp))]
+        if len(ext.get(rows.id, [])) == 1 and len(ext.get(tlist, [])) == 1 and not mut_elsewhere:
+            return _scatter_sources(fn, assigns, ldr, ext[rows.id][0], ext[tlist][0])
+        return "?", f"`{rows.id}` and `{tlist}` are not extended once each, side by side, per tomogram"
+    return None
+
+
 def _order_of_expr(model, fn, e, assigns, depth):
     if depth > 8:
         return "?", "too deep"
+    alt = _scatter_alternatives(fn, e, assigns)
+    if alt is not None:
+        return alt
     if isinstance(e, ast.Name):
         vals = assigns.get(e.id, [])
         # scatter list?
@@ -176,6 +252,9 @@ def _order_of_expr(model, fn, e, assigns, depth):
             if e.args:
                 a = e.args[0]
                 if isinstance(a, (ast.GeneratorExp, ast.ListComp)):
+                    alt2 = _scatter_alternatives(fn, a, assigns)
+                    if alt2 is not None:
+                        return alt2
                     g = a.generators[0]
                     it = g.iter
                     # X.enumerate() / enumerate(X) / X
@@ -244,6 +323,12 @@ def _scatter(fn, name, assigns):
     if norm_src(tgt.slice) != idx_var or norm_src(st.value) != task_var:
         return "Perm", f"store `{norm_src(st)}` does not write the zipped task at the zipped index"
     idx_src, task_src = il.iter.args
+    return _scatter_sources(fn, assigns, ldr, idx_src, task_src)
+
+
+def _scatter_sources(fn, assigns, ldr, idx_src, task_src):
+    """Common part of the scatter idioms: the tasks are the group loader's own, the indices are the rows of self.molecules with that loader's image id."""
+    from ..cfg import backward_slice_names
     # tasks: the loader's own construct_loading_tasks
     tnames = backward_slice_names(fn.node, task_src)
     tvals = assigns.get(task_src.id, []) if isinstance(task_src, ast.Name) else [task_src]
